@@ -221,3 +221,34 @@ CLAIMS = {
         "technique": "provenance (who-constructs + parameter flow) over THIR + match table + sibling-completeness",
     },
 }
+
+# clauses added in the second build session (DESIGN.md section 9.0); appended to the claim text by gen_manifest.py
+EXTRA = {
+    "C01": " Also: the SLG AnswerSubstitutor relates every component of every rigid constructor pair (408 pairs); both engines try every "
+           "candidate clause (loop totality); reached_fixed_point is true only for an equal or ambiguous current answer (decision table "
+           "by symbolic evaluation).",
+    "C03": " Also: no SolveState step drops a live strand on a normal path (must-pass-through to a conserving sink; audited discard: "
+           "failed merge), and the strand for the next answer index is enqueued before an answer is merged.",
+    "C04": " Also: AnswerSubstitutor completeness (shared with C01) and every-candidate-clause loop totality in both engines.",
+    "C05": " Also: the reached_fixed_point decision table (a changed definite answer forces another iteration).",
+    "C06": " Also: the implied-bound loop treats every where clause; the elaboration worklist drops a clause only when it is already in "
+           "the closure; EnvElaborator never aborts its traversal.",
+    "C07": " Also: the loop over candidate impls emits every positive impl's value and never stops early.",
+    "C09": " Also: the progress flag of Fulfill::fulfill is set only behind the non-trivial-substitution test, which handles all three "
+           "argument kinds; reached_fixed_point stops on equality or ambiguity (decision table).",
+    "C10": " Also: every result-holding field of both solvers is an audited result store; any_future_answer examines every cached answer "
+           "and every pending strand; answers with delayed subgoals need a refinement strand (violated for non-root tables: known finding).",
+    "C11": " Also: every result-holding field of both solvers is an audited result store; the cache promotion is guarded by an "
+           "interruption flag set on every false return of the caller's callback.",
+    "C12": " The recursive solver resets stack and search graph at every root entry (accepted alternative to unwind pairing).",
+    "C14": " Also: the occurs check folds the value of an already-bound variable on every path.",
+    "C16": " Also: the universe collector never aborts its traversal.",
+    "C17": " Also: every identity test in AntiUnifier / MayInvalidate compares whole components; any_future_answer examines every cached "
+           "answer and every pending strand.",
+    "C19": " Also: set_priorities walks all children with p+1 on every visit and insert never lowers a priority.",
+    "C21": " Also: InputTypeCollector never aborts its traversal.",
+    "C22": " Also: element-dropping iterator adaptors in the writer are exactly the audited sites.",
+    "C23": " Also: the recorded-id set only grows (who-may-write), re-entrant database methods are not forwarded to the wrapped database, "
+           "the id collector never aborts its traversal.",
+    "C29": " Also: different rigid lifetimes are always related through push_lifetime_outlives_goals with the ambient variance.",
+}
